@@ -3542,10 +3542,17 @@ def k_dest_start(E, tier):
                 rule = child.fields.get("rule")
                 vn = [e.result for e in p.events if e.callee == "vec_new"]
                 derived = [e.result for e in p.events if e.callee in ("map", "rule_new")]
-                rule_ok = (isinstance(rule, sym.Agg) and rule.variant in ("None", "Some")) or any(rule is r_ for r_ in derived) or \
-                          (isinstance(rule, sym.Agg) and any(_payload_contains(rule, r_) for r_ in derived))
+                from_parent = any(rule is r_ for r_ in derived) or (isinstance(rule, sym.Agg) and any(_payload_contains(rule, r_) for r_ in derived))
+                is_none = isinstance(rule, sym.Agg) and rule.variant == "None"
+                # no rule of its own only for a flat at-rule (@font-face ...): decided from the path condition
+                flat = [t for t in (getattr(e, "flat_term", None) for e in p.events) if t]
+                none_ok = False
+                if is_none and meth == "start_atrule":
+                    fl = [x for x in ctx.decls if "is_flat_rule" in x[0]]
+                    none_ok = bool(fl) and E.decide(ctx, p.pc + ["(not %s)" % fl[0][0]])["verdict"] == "holds"
+                rule_ok = from_parent or none_ok
                 ok = par is me and any(body is v for v in vn) and rule_ok
-                rec.add("%s::%s path %d: the child points at this destination, starts with an empty body, and its rule is none or a new one derived from the parent's" % (owner, meth, i),
+                rec.add("%s::%s path %d: the child points at this destination, starts with an empty body, and gets a rule derived from the parent's (a copy of its selectors, when it has one) — none of its own only for a flat at-rule" % (owner, meth, i),
                         {"verdict": "holds" if ok else "violated", "per_solver": {"structural": "parent=%s body=%s rule=%s" % (par is me, any(body is v for v in vn), rule_ok)}, "time_s": 0})
     return rec
 
@@ -4142,6 +4149,7 @@ def k_loop_scopes(E, tier):
                 e = sym.Event(name, a, None, len(st.pc))
                 e.rargs = [full(ex, st, x) for x in a]
                 ok.events.append(e)
+                err.events.append(sym.Event(name + "-failed", a, None, len(st.pc)))
                 v = okv(ctx) if okv else sym.Unit()
                 e.result = v
                 return [(ok, sym.Agg(d, "Ok", {"0": v}, 0)), (err, sym.Agg(d, "Err", {"0": sym.Opaque("Error", name + "-error", ctx)}, 1))]
@@ -4196,6 +4204,20 @@ def k_loop_scopes(E, tier):
         ex = sym.Executor(ctx, models=models, unroll=5, feasibility=E.feasibility(ctx), max_paths=6000)
         paths = [p for p in ex.run(f, [sym.Ref("val", item), sym.Opaque("&mut dyn CssDestination", "dest", ctx), outer, sym.Opaque("&mut Context", "fctx", ctx)]) if p.status == "return"]
         rec.paths += len(paths)
+        # a failing step ends the loop with that error: no path goes on (another iteration, a completed arm) after a failure
+        swallowed = []
+        for i_, p_ in enumerate(paths):
+            names_ = [e.callee for e in p_.events]
+            fi = [k for k, n_ in enumerate(names_) if n_.endswith("-failed")]
+            if not fi:
+                continue
+            after = [n_ for n_ in names_[fi[0] + 1:] if n_ in ("handle_body", "define", "define_multi", "iter-some", "evaluate", "handle_body-failed")]
+            is_err = isinstance(p_.ret, sym.Agg) and p_.ret.variant == "Err"
+            if after or not is_err:
+                swallowed.append("path %d: %s then %s, result %s" % (i_, names_[fi[0]], after[:2], getattr(p_.ret, "variant", "?")))
+        n_fail = sum(1 for p_ in paths if any(e.callee.endswith("-failed") for e in p_.events))
+        rec.add("@%s arm: a failing step (range / items / condition / binding / body) ends the loop at once and its error is the result (%d failing paths)" % (arm.lower(), n_fail),
+                {"verdict": ("holds" if not swallowed else "violated") if n_fail else "inconclusive", "per_solver": {"structural": "; ".join(swallowed[:2]) or "event order"}, "time_s": 0})
         okp = [p for p in paths if isinstance(p.ret, sym.Agg) and p.ret.variant == "Ok" and not any(e.callee == "cut" for e in p.events)]
         if not okp:
             rec.add("@%s arm: a completing path exists (shape not recognised)" % arm.lower(), {"verdict": "inconclusive", "per_solver": {}, "time_s": 0})
@@ -5157,6 +5179,328 @@ def k_rgba_hex_text(E, tier):
         rec.add("all four text forms explored (%s missing)" % sorted(need - seen), {"verdict": "inconclusive", "per_solver": {}, "time_s": 0})
     rec.notes.append("assumed representation invariant: source format ShortHex implies all three channels are multiples of 17 (set by the parser for `#abc` literals, "
                      "reset by reset_source on modification); template bytes of the pinned nightly's fmt::Arguments encoding")
+    return rec
+
+
+def k_map_set_inner(E, tier):
+    """C13: map.set (set_inner): with one key the value is stored with OrderMap::insert(map, key, value) — which
+    replaces an `==` entry in place or appends a new one (E1) — and nothing else is touched; with a key chain
+    the value stored under the first key is the map found there (or an empty map) updated recursively with the
+    rest of the chain, and the entry under the first key is *replaced in place*: it is not removed first
+    (removing and re-inserting would move it to the end, changing the order of the other entries around it)."""
+    f = E.find(name="set_inner")
+    rec = Rec("map::set_inner", f, E)
+    ctx = E.ctx()
+    themap = sym.Opaque("OrderMap", "map", ctx)
+    keys = sym.Opaque("&[css::value::Value]", "keys", ctx)
+    value = sym.Opaque("css::value::Value", "value", ctx)
+    first = sym.Opaque("css::value::Value", "first-key", ctx)
+    rest = sym.Opaque("&[css::value::Value]", "rest-of-keys", ctx)
+    rest_empty = ctx.fresh_scalar("bool", "rest_is_empty")
+    inner_result = sym.Opaque("OrderMap", "updated-inner-map", ctx)
+
+    def full(ex, st, x):
+        while isinstance(x, sym.Ref):
+            x = ex.deref(st, x)
+        return x
+
+    def m_split_first(ex, st, c, a, d):
+        some, none = st.fork(), st.fork()
+        some.events.append(sym.Event("has-key", [], None, len(st.pc)))
+        return [(some, sym.Agg(d, "Some", {"0": sym.Agg("tuple", None, {"0": sym.Ref("val", first), "1": rest})}, 1)), (none, sym.Agg(d, "None", {}, 0))]
+
+    def m_lookup(name):
+        def m(ex, st, c, a, d):
+            some, none = st.fork(), st.fork()
+            found = sym.Opaque("css::value::Value", "found-under-first-key", ctx)
+            for s2, r in ((some, "some"), (none, "none")):
+                e = sym.Event(name, a, r, len(st.pc))
+                e.rargs = [full(ex, st, x) for x in a]
+                e.found = found
+                s2.events.append(e)
+            payload = found if name == "remove" else sym.Ref("val", found)
+            return [(some, sym.Agg(d, "Some", {"0": payload}, 1)), (none, sym.Agg(d, "None", {}, 0))]
+        return m
+
+    def m_recurse(ex, st, c, a, d):
+        ok, err = st.fork(), st.fork()
+        e = sym.Event("recurse", a, None, len(st.pc))
+        e.rargs = [full(ex, st, x) for x in a]
+        ok.events.append(e)
+        return [(ok, sym.Agg(d, "Ok", {"0": inner_result}, 0)), (err, sym.Agg(d, "Err", {"0": sym.Opaque("CallError", "inner-error", ctx)}, 1))]
+
+    def m_insert(ex, st, c, a, d):
+        e = sym.Event("insert", a, None, len(st.pc))
+        e.rargs = [full(ex, st, x) for x in a]
+        st.events.append(e)
+        return sym.Opaque(d or "Option", "previous", ctx)
+
+    def m_new(ex, st, c, a, d):
+        o = sym.Agg("OrderMap", "EMPTY", {})
+        st.events.append(sym.Event("map_new", a, o, len(st.pc)))
+        return o
+
+    models = [
+        (r"^core::slice::<impl \[css::value::Value\]>::split_first$", m_split_first), (r"^core::slice::<impl \[css::value::Value\]>::is_empty$", lambda ex, st, c, a, d: rest_empty),
+        (r"^OrderMap::<css::value::Value, css::value::Value>::remove$", m_lookup("remove")), (r"^OrderMap::<css::value::Value, css::value::Value>::get$", m_lookup("get")),
+        (r"^OrderMap::<css::value::Value, css::value::Value>::get_mut$", m_lookup("get")),
+        (r"^set_inner$", m_recurse), (r"^OrderMap::<css::value::Value, css::value::Value>::insert$", m_insert), (r"^OrderMap::<css::value::Value, css::value::Value>::new$", m_new),
+        (r"^<(css::value::Value|OrderMap<css::value::Value, css::value::Value>) as Clone>::clone$", lambda ex, st, c, a, d: full(ex, st, a[0])),
+    ] + BASE_MODELS
+    ex = sym.Executor(ctx, models=models, feasibility=E.feasibility(ctx))
+    paths = [p for p in ex.run(f, [themap, keys, value]) if p.status == "return"]
+    rec.paths = len(paths)
+    seen = set()
+    for i, p in enumerate(paths):
+        ret = p.ret
+        if not (isinstance(ret, sym.Agg) and ret.variant in ("Ok", "Err")):
+            rec.add("path %d: Ok or Err (shape not recognised)" % i, {"verdict": "inconclusive", "per_solver": {}, "time_s": 0})
+            continue
+        ins = [e for e in p.events if e.callee == "insert"]
+        rem = [e for e in p.events if e.callee == "remove"]
+        get = [e for e in p.events if e.callee == "get"]
+        rc = [e for e in p.events if e.callee == "recurse"]
+        if not any(e.callee == "has-key" for e in p.events):
+            rec.add("path %d: an empty key chain is an error" % i, {"verdict": "holds" if ret.variant == "Err" and not ins else "violated", "per_solver": {"structural": "result"}, "time_s": 0})
+            seen.add("nokey")
+            continue
+        if ret.variant == "Err":
+            rec.add("path %d: an error of the recursive step is returned and nothing is stored" % i,
+                    {"verdict": "holds" if not ins and not rc else "violated", "per_solver": {"structural": "events"}, "time_s": 0})
+            seen.add("error")
+            continue
+        flat = E.decide(ctx, p.pc + ["(not %s)" % rest_empty.term])["verdict"] == "holds"
+        if flat:
+            ok = len(ins) == 1 and ins[0].rargs[0] is themap and ins[0].rargs[1] is first and ins[0].rargs[2] is value and not rem and not rc and ret.fields["0"] is themap
+            rec.add("path %d [one key]: insert(map, key, value) and nothing else" % i, {"verdict": "holds" if ok else "violated", "per_solver": {"structural": "event identity"}, "time_s": 0})
+            seen.add("flat")
+        else:
+            look = (rem + get)
+            good = (len(rc) == 1 and len(ins) == 1 and len(look) == 1 and look[0].rargs[0] is themap and look[0].rargs[1] is first and rc[0].rargs[1] is rest and rc[0].rargs[2] is value
+                    and ins[0].rargs[0] is themap and ins[0].rargs[1] is first and _payload_contains(ins[0].rargs[2], inner_result) and ret.fields["0"] is themap)
+            if good:
+                inner_arg = rc[0].rargs[0]
+                if look[0].result == "some":
+                    good = inner_arg is look[0].found.children.get("Map.0") or (isinstance(inner_arg, sym.Agg) and inner_arg.variant == "EMPTY")
+                else:
+                    good = isinstance(inner_arg, sym.Agg) and inner_arg.variant == "EMPTY"
+            rec.add("path %d [key chain, %s]: the map under the first key (or an empty one) is updated with the rest of the chain and stored back under that key" % (i, look[0].result if look else "?"),
+                    {"verdict": "holds" if good else "violated", "per_solver": {"structural": "event identity"}, "time_s": 0})
+            rec.add("path %d [key chain]: the entry under the first key is replaced in place, not removed and appended (the order of the map's entries is kept)" % i,
+                    {"verdict": "holds" if not rem else "violated", "per_solver": {"structural": "OrderMap::remove before insert: %d" % len(rem)}, "time_s": 0})
+            seen.add("nested")
+    need = {"flat", "nested", "error", "nokey"}
+    if not need <= seen:
+        rec.add("all outcome kinds explored (%s missing)" % sorted(need - seen), {"verdict": "inconclusive", "per_solver": {}, "time_s": 0})
+    return rec
+
+
+def k_deep_merge(E, tier):
+    """C13 (map.deep-merge, the recursive sibling of map.merge): for each entry (key, v2) of $map2, in order:
+    when $map1 holds a map under an `==` key and v2 is a map, the two are merged recursively; when $map1
+    holds a map there and v2 is the *empty* list (= empty map), nothing changes; in every other case v2 wins:
+    insert(map1, key, v2)."""
+    cssv = E.load_enum("css/value.rs", "Value", "css::value::Value")
+    f = E.find(name="do_deep_merge")
+    rec = Rec("map::do_deep_merge", f, E)
+    ctx = E.ctx()
+    m1 = sym.Opaque("OrderMap", "map1", ctx)
+    m2 = sym.Opaque("OrderMap", "map2", ctx)
+    key = sym.Opaque("css::value::Value", "key", ctx)
+    v2 = sym.Opaque("css::value::Value", "v2", ctx)
+    old = sym.Opaque("css::value::Value", "value-in-map1", ctx)
+    empty = ctx.fresh_scalar("bool", "list_is_empty")
+
+    def full(ex, st, x):
+        while isinstance(x, sym.Ref):
+            x = ex.deref(st, x)
+        return x
+
+    def m_next(ex, st, c, a, d):
+        n = sum(1 for e in st.events if e.callee == "entry")
+        if n >= 1:
+            return sym.Agg(d, "None", {}, 0)
+        some, none = st.fork(), st.fork()
+        some.events.append(sym.Event("entry", [], None, len(st.pc)))
+        return [(some, sym.Agg(d, "Some", {"0": sym.Agg("pair", None, {"0": key, "1": v2})}, 1)), (none, sym.Agg(d, "None", {}, 0))]
+
+    def m_get_mut(ex, st, c, a, d):
+        some, none = st.fork(), st.fork()
+        for s2, r in ((some, "some"), (none, "none")):
+            e = sym.Event("get_mut", a, r, len(st.pc))
+            e.rargs = [full(ex, st, x) for x in a]
+            s2.events.append(e)
+        return [(some, sym.Agg(d, "Some", {"0": sym.Ref("val", old)}, 1)), (none, sym.Agg(d, "None", {}, 0))]
+
+    def ev(name):
+        def m(ex, st, c, a, d):
+            e = sym.Event(name, a, None, len(st.pc))
+            e.rargs = [full(ex, st, x) for x in a]
+            st.events.append(e)
+            return ctx.fresh_value(d or "()", "ret." + name)
+        return m
+
+    models = [(r"^<OrderMap<css::value::Value, css::value::Value> as IntoIterator>::into_iter$", lambda ex, st, c, a, d: sym.Opaque("iter", "entries-of-map2", ctx)),
+              (r"^<std::vec::IntoIter<\(css::value::Value, css::value::Value\)> as Iterator>::next$", m_next),
+              (r"^OrderMap::<css::value::Value, css::value::Value>::get_mut$", m_get_mut), (r"^OrderMap::<css::value::Value, css::value::Value>::insert$", ev("insert")),
+              (r"^do_deep_merge$", ev("recurse")), (r"^Vec::<css::value::Value>::is_empty$", lambda ex, st, c, a, d: empty)] + BASE_MODELS
+    ex = sym.Executor(ctx, models=models, unroll=4, feasibility=E.feasibility(ctx))
+    paths = [p for p in ex.run(f, [sym.Ref("val", m1), m2]) if p.status == "return"]
+    rec.paths = len(paths)
+    OD, VD = old.discriminant().term, v2.discriminant().term
+    is_map = lambda t: "(= %s %s)" % (t, bvlit(cssv.index("Map"), 64))
+    is_list = lambda t: "(= %s %s)" % (t, bvlit(cssv.index("List"), 64))
+    seen = set()
+    for i, p in enumerate(paths):
+        if not any(e.callee == "entry" for e in p.events):
+            continue
+        gm = [e for e in p.events if e.callee == "get_mut"]
+        ins = [e for e in p.events if e.callee == "insert"]
+        rc = [e for e in p.events if e.callee == "recurse"]
+        if len(gm) != 1 or gm[0].rargs[0] is not m1 or gm[0].rargs[1] is not key:
+            rec.add("path %d: the key of the entry is looked up in map1 (shape not recognised)" % i, {"verdict": "inconclusive", "per_solver": {}, "time_s": 0})
+            continue
+        found = gm[0].result == "some"
+        both_maps = "(and %s %s)" % (is_map(OD), is_map(VD)) if found else "false"
+        keep = "(and %s %s %s)" % (is_map(OD), is_list(VD), empty.term) if found else "false"
+        if rc and not ins:
+            good = rc[0].rargs[0] is old.children.get("Map.0") and rc[0].rargs[1] is v2.children.get("Map.0")
+            r = E.decide(ctx, p.pc + ["(not %s)" % both_maps])
+            rec.add("path %d: recursion only when both sides hold a map under the key, on exactly those two maps" % i, r if good else {"verdict": "violated", "per_solver": {"structural": "identity"}, "time_s": 0})
+            seen.add("recurse")
+        elif ins and not rc:
+            good = ins[0].rargs[0] is m1 and ins[0].rargs[1] is key and ins[0].rargs[2] is v2
+            r = E.decide(ctx, p.pc + ["(or %s %s)" % (both_maps, keep)])
+            rec.add("path %d: otherwise map2's value wins: insert(map1, key, v2) — in every case except map/map and map/empty list" % i,
+                    r if good else {"verdict": "violated", "per_solver": {"structural": "identity"}, "time_s": 0})
+            seen.add("insert")
+        elif not ins and not rc:
+            r = E.decide(ctx, p.pc + ["(not %s)" % keep], model_names=[OD, VD, empty.term])
+            rec.add("path %d: map1's entry is kept untouched only for a map in map1 and the empty list in map2" % i, r)
+            seen.add("keep")
+        else:
+            rec.add("path %d: exactly one of recurse / insert / keep (shape not recognised)" % i, {"verdict": "inconclusive", "per_solver": {}, "time_s": 0})
+    if not {"recurse", "insert", "keep"} <= seen:
+        rec.add("all three outcomes explored (%s)" % sorted(seen), {"verdict": "inconclusive", "per_solver": {}, "time_s": 0})
+    return rec
+
+
+def k_call_args_splat(E, tier):
+    """C18 (duplicated arguments are errors): CallArgs::evaluate, the branch that splices a forwarded argument
+    list (`$args...`) into a call: its positional values are appended to the call's positional arguments, each of
+    its keywords is inserted into the call's named arguments, and a keyword that is already present there makes
+    the call fail with `Duplicate argument`; a map splat goes through add_from_value_map and its error is
+    returned."""
+    cssv = E.load_enum("css/value.rs", "Value", "css::value::Value")
+    f = E.find(name_re=r"^sass::call_args::<impl at .*>::evaluate$")
+    rec = Rec("sass::CallArgs::evaluate (splat branches)", f, E)
+    ctx = E.ctx()
+    me = sym.Opaque("sass::call_args::CallArgs", "self", ctx)
+    named = sym.Opaque("OrderMap<Name, css::value::Value>", "named-so-far", ctx)
+    splat = sym.Opaque("css::value::Value", "splat-value", ctx)
+    kw = (sym.Opaque("Name", "forwarded-keyword", ctx), sym.Opaque("css::value::Value", "forwarded-value", ctx))
+
+    def full(ex, st, x):
+        while isinstance(x, sym.Ref):
+            x = ex.deref(st, x)
+        return x
+
+    def m_try_fold(ex, st, c, a, d):
+        return sym.Agg(d, "Ok", {"0": named}, 0)
+
+    def m_pos_next(ex, st, c, a, d):
+        n = sum(1 for e in st.events if e.callee == "arg")
+        if n >= 1:
+            return sym.Agg(d, "None", {}, 0)
+        st.events.append(sym.Event("arg", [], None, len(st.pc)))
+        return sym.Agg(d, "Some", {"0": sym.Ref("val", sym.Opaque("sass::value::Value", "argument", ctx))}, 1)
+
+    def m_is_splat(ex, st, c, a, d):
+        one = sym.Opaque("sass::value::Value", "splatted-expression", ctx)
+        st.cells["SPLAT"] = sym.Agg("array", None, {"0": one})
+        st.events.append(sym.Event("is_splat", a, None, len(st.pc)))
+        # a one-element splat: `expr...`
+        return sym.Agg(d, "Some", {"0": sym.Ref("cell", "SPLAT")}, 1)
+
+    def m_do_eval(ex, st, c, a, d):
+        ok, err = st.fork(), st.fork()
+        ok.events.append(sym.Event("evaluate", a, None, len(st.pc)))
+        return [(ok, sym.Agg(d, "Ok", {"0": splat}, 0)), (err, sym.Agg(d, "Err", {"0": sym.Opaque("Error", "eval-error", ctx)}, 1))]
+
+    def m_kw_next(ex, st, c, a, d):
+        n = sum(1 for e in st.events if e.callee == "kw")
+        if n >= 1:
+            return sym.Agg(d, "None", {}, 0)
+        some, none = st.fork(), st.fork()
+        some.events.append(sym.Event("kw", [], None, len(st.pc)))
+        return [(some, sym.Agg(d, "Some", {"0": sym.Agg("pair", None, {"0": kw[0], "1": kw[1]})}, 1)), (none, sym.Agg(d, "None", {}, 0))]
+
+    def m_insert(ex, st, c, a, d):
+        some, none = st.fork(), st.fork()
+        for s2, r in ((some, "some"), (none, "none")):
+            e = sym.Event("insert", a, r, len(st.pc))
+            e.rargs = [full(ex, st, x) for x in a]
+            s2.events.append(e)
+        return [(some, sym.Agg(d, "Some", {"0": sym.Opaque("css::value::Value", "existing", ctx)}, 1)), (none, sym.Agg(d, "None", {}, 0))]
+
+    def m_add_map(ex, st, c, a, d):
+        ok, err = st.fork(), st.fork()
+        ok.events.append(sym.Event("add_from_value_map", a, "ok", len(st.pc)))
+        err.events.append(sym.Event("add_from_value_map", a, "err", len(st.pc)))
+        return [(ok, sym.Agg(d, "Ok", {"0": sym.Unit()}, 0)), (err, sym.Agg(d, "Err", {"0": sym.Opaque("String", "map-splat-error", ctx)}, 1))]
+
+    def m_extend(ex, st, c, a, d):
+        e = sym.Event("extend-positional", a, None, len(st.pc))
+        e.rargs = [full(ex, st, x) for x in a]
+        st.events.append(e)
+        return sym.Unit()
+
+    ident = lambda ex, st, c, a, d: a[0]
+    models = [
+        (r"as Iterator>::try_fold::<OrderMap<Name, css::value::Value>", m_try_fold),
+        (r"^<std::slice::Iter<'_, sass::value::Value> as Iterator>::next$", m_pos_next), (r"^is_splat$", m_is_splat),
+        (r"^sass::value::Value::do_evaluate$", m_do_eval),
+        (r"^<std::vec::IntoIter<\(Name, css::value::Value\)> as Iterator>::next$", m_kw_next),
+        (r"^<OrderMap<Name, css::value::Value> as IntoIterator>::into_iter$", lambda ex, st, c, a, d: sym.Opaque("iter", "forwarded-keywords", ctx)),
+        (r"^OrderMap::<Name, css::value::Value>::insert$", m_insert), (r"^css::call_args::CallArgs::add_from_value_map$", m_add_map),
+        (r"^<Vec<css::value::Value> as Extend<css::value::Value>>::extend::<", m_extend),
+        (r"^<std::vec::IntoIter<css::value::Value> as Iterator>::next$", lambda ex, st, c, a, d: sym.Agg(d, "None", {}, 0)),
+        (r"^<ScopeRef as Clone>::clone$", lambda ex, st, c, a, d: full(ex, st, a[0])),
+    ] + _result_models() + BASE_MODELS
+    ex = sym.Executor(ctx, models=models, unroll=4, feasibility=E.feasibility(ctx), max_paths=4000)
+    paths = [p for p in ex.run(f, [sym.Ref("val", me), sym.Opaque("ScopeRef", "scope", ctx)]) if p.status == "return"]
+    rec.paths = len(paths)
+    SD = splat.discriminant().term
+    seen = set()
+    for i, p in enumerate(paths):
+        ins = [e for e in p.events if e.callee == "insert"]
+        am = [e for e in p.events if e.callee == "add_from_value_map"]
+        ret = p.ret
+        if not (isinstance(ret, sym.Agg) and ret.variant in ("Ok", "Err")):
+            continue
+        if ins:
+            good = ins[0].rargs[0] is named and ins[0].rargs[1] is kw[0] and ins[0].rargs[2] is kw[1]
+            r = E.decide(ctx, p.pc + ["(not (= %s %s))" % (SD, bvlit(cssv.index("ArgList"), 64))])
+            if ins[0].result == "some":
+                ok = good and ret.variant == "Err"
+                rec.add("path %d: a forwarded keyword that is already among the call's named arguments makes the call fail (duplicate argument)" % i,
+                        r if ok else {"verdict": "violated", "per_solver": {"structural": "result %s after a colliding insert" % ret.variant}, "time_s": 0})
+                seen.add("duplicate")
+            else:
+                ok = good and ret.variant == "Ok"
+                rec.add("path %d: a new forwarded keyword is added to the call's named arguments under its own name" % i,
+                        r if ok else {"verdict": "violated", "per_solver": {"structural": "event identity"}, "time_s": 0})
+                seen.add("added")
+        elif am:
+            ok = (am[0].result == "err") == (ret.variant == "Err")
+            r = E.decide(ctx, p.pc + ["(not (= %s %s))" % (SD, bvlit(cssv.index("Map"), 64))])
+            rec.add("path %d: a map splat goes through add_from_value_map and its failure is the call's failure" % i,
+                    r if ok else {"verdict": "violated", "per_solver": {"structural": "result"}, "time_s": 0})
+            seen.add("map-" + am[0].result)
+    need = {"duplicate", "added", "map-ok", "map-err"}
+    if not need <= seen:
+        rec.add("all splat outcomes explored (%s missing)" % sorted(need - seen), {"verdict": "inconclusive", "per_solver": {}, "time_s": 0})
+    rec.notes.append("one splatted argument, one forwarded keyword; the evaluation of the explicitly named arguments (try_fold) is a stub returning the named map")
     return rec
 
 
